@@ -34,6 +34,32 @@ where
     p.expect(ket);
 }
 
+/// `delimited` for a list that has at least one element (`class A<>` and `!cond()` are not
+/// TableGen): an empty list is reported at its closing bracket
+fn delimited_nonempty<F>(
+    p: &mut Parser,
+    bra: TokenKind,
+    ket: TokenKind,
+    delim: TokenKind,
+    message: &str,
+    mut parser: F,
+) where
+    F: FnMut(&mut Parser<'_>),
+{
+    p.expect(bra);
+    if p.at(ket) {
+        p.error(message);
+    }
+    while !p.at(ket) && !p.eof() {
+        parser(p);
+
+        if !p.eat_if(delim) {
+            break;
+        }
+    }
+    p.expect(ket);
+}
+
 #[cfg(test)]
 mod tests {
     use crate::error::SyntaxError;
